@@ -87,7 +87,10 @@ def run(tier, seed):
         paths[(d["solve_path"], obs)] = paths.get((d["solve_path"], obs), 0) + 1
         for label, msg in fails:
             kind = core.failure_kind(dict(kind="raised" if msg.startswith("raised") else "value", msg=msg))
-            sig = "%s|%s|%s|%s|%s" % (PROP, label.replace(" ", ""), d["cls"], d["solve_path"], kind)
+            cls_tag = d["cls"]
+            if d["cfg"]["max_chol"] == 0 and d["cls"].startswith("Kron") and e2.degenerate_factor(beh):
+                cls_tag += "[factor-with-repeated-eigenvalue]"
+            sig = "%s|%s|%s|%s|%s" % (PROP, label.replace(" ", ""), cls_tag, d["solve_path"], kind)
             res.violation(sig, "%s batch=%s dt=%s cfg=%s: %s: %s" % (beh["path"], d["b"], d["dt"], d["cfg"], label, msg), dict(behaviour=beh))
     missing = {"class-shortcut", "cholesky", "cg", "cg+preconditioner-if-any"} - {p for p, _ in paths}
     if missing:
